@@ -363,6 +363,9 @@ next:
 				for n += nn; nn != 0 && clean && err == nil; n += nn {
 					nn, err, clean = streamTo(i, w)
 				}
+				if err != nil {
+					clean = false // the remaining chunks of the streamed string are still unread
+				}
 			}
 			return n, err, clean
 		}
@@ -372,18 +375,19 @@ next:
 		if n < 0 {
 			return 0, errNegativeLength, false
 		}
-		full := n + 2
+		rest := n + 2 // what is still unread of the payload and its CRLF
 		if n != 0 {
 			lr := lrs.Get().(*io.LimitedReader)
 			lr.R = i
 			lr.N = n
 			n, err = io.Copy(w, lr)
+			rest = lr.N + 2 // a failing writer may have been handed fewer bytes than were read
 			lr.R = nil
 			lrs.Put(lr)
 		} else if typ == typeChunk {
 			return n, err, true
 		}
-		if _, err2 := i.Discard(int(full - n)); err2 == nil {
+		if _, err2 := i.Discard(int(rest)); err2 == nil {
 			clean = true
 		} else if err == nil {
 			err = err2
